@@ -245,6 +245,51 @@ def inter_ref_recipes(rng, n):
     return out
 
 
+EDGE_META = [
+    "servings: []", "servings: [4]", "servings: 4", "servings: 2|4", "servings: \"2|4\"", "servings: [6, 3]", "servings: 0",
+    "servings: [0]", "servings: \"\"", "servings: {}", "servings: ~", "servings: 4294967295", "servings: 4294967296",
+    "yield: []", "yield: [2]", "yield: 3", "serves: []", "serves: 2|3", "serves: \"\"",
+    "tags: []", "tags: {}", "tags: \"\"", "tags: [\"\"]", "tags: [a, \"\", b]", "tags: ~",
+    "time: {}", "time: []", "time: \"\"", "time: 0", "time: {prep_time: 0}", "prep time: {}", "cook time: []",
+    "title: \"\"", "title: []", "title: {}", "description: ~", "author: {}", "author: \"\"", "source: []", "images: []",
+    "locale: \"\"", "difficulty: []", "course: {}", "empty_list: []", "empty_map: {}", "empty_str: \"\"",
+    "nested_empty: [[], {}, \"\", [[]], {a: {}}]",
+    "big: 9223372036854775807", "big1: 9223372036854775808", "big2: 18446744073709551615", "neg: -9223372036854775808",
+    "bigs: [9223372036854775806, 9223372036854775807, 9223372036854775808, 18446744073709551614, 18446744073709551615]",
+    "bigf: 9223372036854775807.0", "bigf1: 9223372036854775808.0", "bigf2: 1.8446744073709552e19", "two53: 9007199254740993",
+]
+EDGE_BODIES = [
+    "@stock{3-2%l} then @wine{2-2%dl} and @water{1-1}.\n",
+    "@a{5-1%g} @b{0-0%ml} @c{10-0.5%kg} @d{1/2-1/4%cup} #pans{3-2} ~{10-5%min}\n",
+    "@flour{0%g} @salt{0} @x{-0%g}\n",
+    "@rice{200%g} and @stock{3-2%l} in #pot{}. ~{20%min}\n",
+    "Stir.\n",
+]
+
+
+def edge_recipes(rng, n):
+    """metadata shapes at the edges (empty and singleton servings / yield / serves lists, empty lists, maps
+    and strings where a standard key expects something else, integers around i64::MAX and u64::MAX) and
+    descending / flat / zero ranges"""
+    out = []
+    for line in EDGE_META:
+        out.append("---\n%s\n---\n%s" % (line, EDGE_BODIES[3]))
+    for body in EDGE_BODIES:
+        out.append(body)
+        out.append("---\nservings: [2, 4]\n---\n" + body)
+    for _ in range(n):
+        lines = rng.sample(EDGE_META, rng.randint(1, 4))
+        keys = set()
+        keep = []
+        for l in lines:
+            k = l.split(":")[0]
+            if k not in keys:
+                keys.add(k)
+                keep.append(l)
+        out.append("---\n%s\n---\n%s" % ("\n".join(keep), rng.choice(EDGE_BODIES)))
+    return out
+
+
 def modifier_recipes():
     """every subset of the five modifier characters on an ingredient and on cookware"""
     out = []
@@ -263,6 +308,8 @@ def gen_recipes(rng, n):
         out.append((front_matter(rng, False) + text, ALL_EXT, "curated+yaml"))
     for text in sparse_recipes():
         out.append((text, ALL_EXT, "sparse"))
+    for text in edge_recipes(rng, max(40, n // 10)):
+        out.append((text, ALL_EXT, "edge"))
     for text in amount_recipes(rng, max(40, n // 8)):
         out.append((text, ALL_EXT, "amounts"))
     for text in inter_ref_recipes(rng, max(60, n // 8)):
@@ -288,7 +335,7 @@ def gen_recipes(rng, n):
 def variants(rng):
     f = rng.choice(["2", "0.5", "3", "2.5", "0.3333333333333333", "10", "0.001", "1000000", "7.77", "1.1",
                     "%r" % round(rng.uniform(0.01, 50), rng.randint(0, 5))])
-    f2 = rng.choice(["2", "0.5", "3", "1.5", "0.25", "%r" % round(rng.uniform(0.05, 20), 3)])
+    f2 = rng.choice(["2", "0.5", "3", "1.5", "0.25", "-1", "0", "-2.5", "%r" % round(rng.uniform(0.05, 20), 3)])
     return ["u", rng.choice(["d", "d+i", "d+m"]), "s" + f, "s%s+%s" % (f2, rng.choice("mi")),
             rng.choice(["t%d" % rng.choice([1, 3, 6, 12]), "s%s+%s" % (f, rng.choice("mi"))])]
 
@@ -411,6 +458,18 @@ def dump_index_of_data(t):
 
 def stats_of(dump, c):
     t = dump.split(" ")
+    i_data = dump_index_of_data(t)
+    if t[i_data + 1:i_data + 3] == ["s", "L0"]:
+        c["servings_some_empty"] += 1
+    elif t[i_data + 1:i_data + 2] == ["s"]:
+        c["servings_some"] += 1
+    for i, x in enumerate(t):
+        if x == "VRange" and t[i + 3] == "VRegular" and t[i + 6] == "VRegular":
+            try:
+                a, b = float(t[i + 4][1:]), float(t[i + 7][1:])
+                c["range_descending" if a > b else "range_flat" if a == b else "range_ascending"] += 1
+            except ValueError:
+                pass
     # intermediate references whose target index is not an ingredient index
     try:
         i0 = t.index("ingredients")
@@ -485,6 +544,10 @@ def run(rep, tier, seed):
             vs = ["d+i", "d+m", "s%s+i" % rng.choice(["2", "0.5", "3", "1.5", "0.25", "4"]), "u"]
         elif kind == "sparse":
             vs = ["u", "d", "s2", "s0.5+i", "t3"]
+        elif kind == "edge":
+            # "arbitrary factors": any finite f64, so zero and negative ones too
+            vs = ["u", "d", "d+i", "s%s" % rng.choice(["-1", "-2.5", "0", "-0.0", "1e-300", "1e300", "3"]),
+                  "s%s+%s" % (rng.choice(["-1", "0", "-0.5", "2"]), rng.choice("mi")), "t%d" % rng.choice([0, 1, 4])]
         else:
             vs = variants(rng)
         for v in vs:
